@@ -174,23 +174,13 @@ theorem protocolRecv_total (prefixes : List Bytes) (d : Bytes) (loc : Option Add
 
 /-! ### metadata is always there: `headers["_host"]` cannot raise KeyError -/
 
-theorem headersOf_nodup (pairs : List (Bytes × Bytes)) (udn : Option Bytes) (a0 : Addr) :
-    (keys (PyDict.merge (mdToDict pairs) (extras pairs udn a0))).Nodup :=
-  nodup_keys_merge _ _ (nodup_keys_ofList _)
-
 theorem host_present (pairs : List (Bytes × Bytes)) (udn : Option Bytes) (loc : Option Addr) (src : Addr) (now : Int) :
     (getitem lower (combineLower (headersOf pairs udn (withoutPort src)) (callMeta now loc src)) kHost).isSome := by
-  unfold headersOf
-  rw [getitem_decoded _ (headersOf_nodup pairs udn _) now loc src kHost]
-  have hk : kHost ∈ keys (PyDict.merge (mdToDict pairs) (extras pairs udn (withoutPort src))) := by
-    rw [mem_keys_merge]; right; rw [extras_eq]; simp [keys]
-  obtain ⟨p, hp, e⟩ := List.mem_map.mp hk
-  have : (lastCI (PyDict.merge (mdToDict pairs) (extras pairs udn (withoutPort src))) (lower kHost)).isSome := by
-    unfold lastCI
-    rw [Option.isSome_map]
-    rw [List.find?_isSome]
-    exact ⟨p, by simpa using hp, by simp [e]⟩
-  cases h1 : get? (callMeta now loc src) (lower kHost) <;> simp [this]
+  rw [headers_get]
+  have : get? (extras pairs udn (withoutPort src)) (lower kHost) = some (Val.str (hostString (withoutPort src))) := by
+    rw [extras_eq, key_lower.1]; simp [get?]
+  rw [this]
+  cases get? (callMeta now loc src) (lower kHost) <;> simp
 
 theorem searchClassify_total (targetHost : Bytes) {fx : Fixes} {d : Bytes} {loc : Option Addr} {src : Addr} {now : Int}
     {rl : Bytes} {h : Hdrs} (hd : decodeX fx d loc src now = .ok (rl, h)) :
